@@ -497,6 +497,18 @@ impl World {
         }
     }
 
+    /// Lowers SQLite's bound-variable limit on the tower's own connection, so that the chunking of the IN (...)
+    /// lists (locator intersection per block, batch deletes of appointments and users) takes its multi-chunk
+    /// paths with a handful of rows; the behaviour must not depend on it.
+    pub fn set_sql_variable_limit(&self, n: i32) {
+        use teos_common::dbm::DatabaseConnection;
+        self.dbm
+            .lock()
+            .unwrap()
+            .get_connection()
+            .set_limit(rusqlite::limits::Limit::SQLITE_LIMIT_VARIABLE_NUMBER, n);
+    }
+
     /// What is needed to run calls on the real components from any thread.
     pub fn runner(&self) -> Runner {
         Runner {
